@@ -14,6 +14,7 @@ package main
 
 import (
 	"bytes"
+	"context"
 	"encoding/json"
 	"errors"
 	"fmt"
@@ -29,10 +30,13 @@ import (
 	"sync/atomic"
 	"time"
 
+	"github.com/ajitpratap0/GoSQLX/pkg/gosqlx"
 	"github.com/ajitpratap0/GoSQLX/pkg/metrics"
+	"github.com/ajitpratap0/GoSQLX/pkg/sql/ast"
 
 	"verif/internal/core"
 	"verif/internal/ops"
+	"verif/internal/project"
 	"verif/internal/workload"
 )
 
@@ -456,6 +460,39 @@ func personalise(sql string, g int) string {
 	return s
 }
 
+// fireCtx reports cancellation from its k-th poll on (deterministic: the same call alone and in the crowd is cancelled
+// at the same point).
+type fireCtx struct {
+	context.Context
+	n, k int
+}
+
+func (c *fireCtx) Err() error {
+	c.n++
+	if c.n > c.k {
+		return context.Canceled
+	}
+	return nil
+}
+
+// stressKinds: the operation kinds plus context-aware parses of a three-statement script that are cancelled at their
+// k-th poll - calls that fail half-way give their pooled objects back on another path than calls that finish
+var stressKinds = append(append([]string{}, ops.Kinds...), "cancel@3", "cancel@6", "cancel@9", "cancel@14")
+
+func stressDo(kind, sql string) string {
+	if !strings.HasPrefix(kind, "cancel@") {
+		return ops.Do(kind, sql)
+	}
+	k, _ := strconv.Atoi(kind[len("cancel@"):])
+	tree, err := gosqlx.ParseWithContext(&fireCtx{Context: context.Background(), k: k}, sql+";\n"+sql+";\n"+sql)
+	if err != nil {
+		return "err:" + ops.Err(err).Code + fmt.Sprint(errors.Is(err, context.Canceled))
+	}
+	out := project.String(tree.Statements)
+	ast.ReleaseAST(tree)
+	return out
+}
+
 func stressChild() {
 	secs, _ := strconv.Atoi(os.Args[2])
 	seed, _ := strconv.ParseInt(os.Args[3], 10, 64)
@@ -472,7 +509,7 @@ func stressChild() {
 	record := func(k, in string) {
 		metrics.Reset()
 		metrics.Enable()
-		res := ops.Do(k, in)
+		res := stressDo(k, in)
 		st := metrics.GetStats()
 		metrics.Disable()
 		table[call{k, in}] = alone{res, st.TokenizeOperations, st.TokenizeErrors, st.TotalBytesProcessed, st.MinQuerySize, st.MaxQuerySize}
@@ -484,7 +521,7 @@ func stressChild() {
 		}
 		inputsOf[g] = append(inputsOf[g], shared...)
 	}
-	for _, k := range ops.Kinds {
+	for _, k := range stressKinds {
 		for g := 0; g < ng; g++ {
 			for _, in := range inputsOf[g] {
 				if _, ok := table[call{k, in}]; !ok {
@@ -513,11 +550,11 @@ func stressChild() {
 			lmin, lmax := int64(-1), int64(0)
 			lused := map[call]bool{}
 			for i := 0; i < 50 || time.Now().Before(deadline); i++ {
-				c := call{ops.Kinds[rng.Intn(len(ops.Kinds))], inputs[rng.Intn(len(inputs))]}
+				c := call{stressKinds[rng.Intn(len(stressKinds))], inputs[rng.Intn(len(inputs))]}
 				if rng.Intn(16) == 0 {
 					_ = metrics.GetStats() // readers run concurrently with recorders
 				}
-				got := ops.Do(c.kind, c.sql)
+				got := stressDo(c.kind, c.sql)
 				a := table[c]
 				lo.Calls++
 				lo.PerKind[c.kind]++
